@@ -219,9 +219,50 @@ def _ml_cases(tier, seed):
                            'starts1': [rng.randrange(4) for _ in range(nblk)] if mi else [0] * nblk}
 
 
+# typed-in overlapping descriptions with the molecule they describe (ordinary SMILES, read by pysmiles): one atom shared by
+# four and more coarse nodes with the hub fragment written after / between its partners, rings closed through shared atoms,
+# shared atoms on aromatic rings that contain an [nH]
+TYPED = [
+    ('{[#A]1([#E][#B][#C]12)[#S]2}.{#A=[!][!]CC[>],#E=[<]C[>],#B=[<]CC[!],#C=[!][!][!]CF,#S=[!][!]CO}', 'OC1(F)CCC1'),
+    ('{[#A]1[#B][#C]1}.{#A=[$]CCC[!],#B=[$]CCC[!],#C=[!][!]C(C)C}', 'CC1(C)CCCC1'),
+    ('{[#A]1[#B][#D][#C]1}.{#A=[$]CC[!],#B=[$]O[$],#D=[$]CC[!],#C=[!][!]C(C)C}', 'CC1(C)COC1'),
+    ('{[#C]1[#A][#B]1}.{#A=[$]CCC[!],#B=[$]CCC[!],#C=[!][!]C(C)C}', 'CC1(C)CCCC1'),
+    ('{[#A][#B]}.{#A=[nH]1cccc1[!],#B=[!]cC}', 'Cc1ccc[nH]1'),
+    ('{[#A]=[#B]}.{#A=c1cc[!]c[!]cc1,#B=[nH]1c[!]c[!]cc1}', 'c1ccc2[nH]ccc2c1'),
+    ('{[#A][#B]}.{#A=CC[!],#B=[!]Cc1ccc[nH]1}', 'CCc1ccc[nH]1'),
+]
+
+
+def check_typed(case):
+    import networkx as nx
+    import pysmiles
+    from cgsmiles.resolve import MoleculeResolver
+    text, ref = case['text'], case['ref']
+    api = 'MoleculeResolver.resolve() on an overlapping description'
+    r = base.quiet(lambda: MoleculeResolver.from_string(text).resolve())
+    if r[0] != 'ok':
+        return Outcome(text, True, [Failure(api, 'resolver-exception', '%s -> %s: %s' % (text, r[1], r[2][:160]),
+                                            'resolve/typed-shared-atom/resolver-exception', text=text)])
+    fine = r[1][1]
+    want = pysmiles.read_smiles(ref, explicit_hydrogen=True)
+    same = nx.is_isomorphic(fine, want, node_match=lambda a, b: a.get('element') == b.get('element'))
+    fails = []
+    if not same:
+        def formula(g):
+            els = sorted(d.get('element') for _, d in g.nodes(data=True))
+            return ' '.join('%s%d' % (e, els.count(e)) for e in sorted(set(els)))
+        fails.append(Failure(api, 'wrong-molecule', '%s -> %s (%d bonds), described molecule %s is %s (%d bonds)' % (
+            text, formula(fine), fine.number_of_edges(), ref, formula(want), want.number_of_edges()),
+            'resolve/typed-shared-atom/wrong-molecule', text=text))
+    return Outcome(text, True, fails)
+
+
 def cases(tier, seed):
     rng = random.Random(seed * 7368787 + 5)
     quick = tier == 'quick'
+    for text, ref in TYPED:
+        if ref is not None:
+            yield {'fam': 'typed', 'text': text, 'ref': ref}
     yield from _ml_cases(tier, seed)
     mols = _blockA_mols(tier)
     small = sorted([m for m in mols if len(m['a']) <= 3], key=lambda m: len(m['a']))
@@ -363,6 +404,8 @@ def check_two_level(case):
 def check_case(case):
     if case.get('fam') == 'ML':
         return check_two_level(case)
+    if case.get('fam') == 'typed':
+        return check_typed(case)
     built = g2.build(case)
     text = g2.describe(built)
     plan = built['plan']
